@@ -228,6 +228,212 @@ Section UnTarProofs.
     { rewrite (q_pos _ I) by (rewrite Ea; discriminate). rewrite Ea, Hn. cbn. rewrite wsum_total by exact Hall. lia. }
     split; [exact Hpos|]. apply (q_dok _ I). exact Ed.
   Qed.
+
+  (* ---------- deadlock freedom ---------- *)
+  Definition asm_done (a : uasm) : bool := match a with UADone _ => true | _ => false end.
+
+  Record DInv (s : ustate) : Prop := {
+    d_wclosed : u_wclosed s = asm_done (u_asm s);
+    d_rclosed : u_rclosed s = true <-> u_dec s = UDDone false;
+    d_errc : errd s -> u_cancelled s = true;
+    d_req : forall k, k < u_req s -> In k (u_fetched s) \/ exists i, nth_error (u_workers s) i = Some (UWBusy k);
+    d_exit : is_done (u_feed s) = false -> forall i, nth_error (u_workers s) i = Some UWExited -> errd s;
+    d_dclean : u_dec s = UDDone true -> u_wclosed s = true;
+  }.
+
+  Lemma init_dinv nw : DInv (uinit nw).
+  Proof.
+    constructor; cbn; auto; try (intros; lia); try discriminate;
+      try (split; discriminate);
+      try (unfold errd; cbn; intros Hx; exfalso; apply Hx; reflexivity);
+      try (intros _ i Hi; apply nth_error_In, repeat_spec in Hi; discriminate).
+  Qed.
+
+  Ltac dleaf :=
+    constructor; usimp; unfold errd in *; usimp; auto;
+    try (split; assumption);
+    try (intros; discriminate);
+    try congruence;
+    try (split; [intros Hr; try discriminate Hr | intros Hd; try discriminate Hd]; try reflexivity;
+         match goal with Dr : _ = true -> _ = UDDone false, Hr : _ = true |- _ => apply Dr in Hr; congruence end).
+
+  Lemma step_dinv s t s' : DInv s -> step s t = Some s' -> DInv s'.
+  Proof.
+    intros [Dw [Dr1 Dr2] De Dq Dx Dc] E.
+    assert (Hrec : forall e, match u_err s with None => Some e | Some x => Some x end <> None).
+    { intros e. destruct (u_err s); discriminate. }
+    assert (Hbusy : forall i w0 w', nth_error (u_workers s) i = Some w0 -> (forall k, w0 <> UWBusy k) ->
+              forall k, (exists j, nth_error (u_workers s) j = Some (UWBusy k)) ->
+                        exists j, nth_error (set_nth (u_workers s) i w') j = Some (UWBusy k)).
+    { intros i w0 w' Ei Hn k [j Ej]. exists j. rewrite nth_error_set_nth_ne; [exact Ej|]. intro; subst.
+      rewrite Ei in Ej. inversion Ej. eapply Hn; eauto. }
+    assert (Hexit : forall i w0 w' (f : ufeed) (e : option ekind),
+              nth_error (u_workers s) i = Some w0 ->
+              (w' = UWExited -> is_done f = true \/ e <> None) ->
+              (is_done f = false -> is_done (u_feed s) = false) -> (u_err s <> None -> e <> None) ->
+              is_done f = false -> forall j, nth_error (set_nth (u_workers s) i w') j = Some UWExited -> e <> None).
+    { intros i w0 w' f e Ei Hw Hf He Hd j Ej. apply nth_error_set_nth in Ej. destruct Ej as [[_ Ej]|[_ Ej]].
+      - destruct (Hw (eq_sym Ej)) as [Hx|Hx]; [congruence|exact Hx].
+      - apply He. eapply Dx; eauto. }
+    destruct t as [| |i| | | | |]; unfold ustep in E.
+    - destruct (u_feed s) eqn:Qf; [| |discriminate].
+      + destruct (u_req s =? n); [|discriminate]. inversion E; subst; clear E. dleaf.
+      + destruct (u_handed s - u_taken s <? cap); [|discriminate]. inversion E; subst; clear E. dleaf.
+    - destruct (u_feed s) eqn:Qf; [| |discriminate].
+      + destruct (u_cancelled s && (u_req s <? n)) eqn:Qc; [|discriminate]. inversion E; subst; clear E.
+        apply andb_true_iff in Qc. destruct Qc as [Qc _]. dleaf.
+      + destruct (u_cancelled s && true) eqn:Qc; [|discriminate]. inversion E; subst; clear E.
+        apply andb_true_iff in Qc. destruct Qc as [Qc _]. dleaf.
+    - destruct (nth_error (u_workers s) i) as [w0|] eqn:Ew; [|discriminate].
+      destruct w0 as [|k| |].
+      + destruct (u_feed s) eqn:Qf; [| discriminate |].
+        * destruct (u_req s <? n) eqn:Q0; [|discriminate]. inversion E; subst; clear E. dleaf.
+          -- intros k Hk. destruct (Nat.eq_dec k (u_req s)) as [->|Hne].
+             ++ right. exists i. apply nth_error_set_nth_eq. apply nth_error_Some. congruence.
+             ++ destruct (Dq k ltac:(lia)) as [Hin|Hb]; [left; exact Hin|right].
+                eapply Hbusy; eauto. discriminate.
+          -- eapply (Hexit i UWIdle _ UFHand); eauto; try discriminate; try (rewrite Qf; reflexivity).
+        * inversion E; subst; clear E. dleaf.
+          -- intros k Hk. destruct (Dq k Hk) as [Hin|Hb]; [left; exact Hin|right]. eapply Hbusy; eauto. discriminate.
+          -- rewrite Qf. cbn. discriminate.
+      + assert (G : forall w' k0, k0 < u_req s -> In k0 (k :: u_fetched s) \/
+                                             exists j, nth_error (set_nth (u_workers s) i w') j = Some (UWBusy k0)).
+        { intros w' k0 Hk0. destruct (Dq k0 Hk0) as [Hin|[j Ej]]; [left; now right|].
+          destruct (Nat.eq_dec j i) as [->|Hne].
+          - rewrite Ew in Ej. inversion Ej; subst. left. now left.
+          - right. exists j. rewrite nth_error_set_nth_ne; auto. }
+        destruct (fetch_ok k); inversion E; subst; clear E; dleaf; try (apply G);
+          intros Hd; eapply (Hexit i (UWBusy k) _ (u_feed s)); eauto; discriminate.
+      + inversion E; subst; clear E. dleaf.
+        intros k Hk. destruct (Dq k Hk) as [Hin|Hb]; [left; exact Hin|right]. eapply Hbusy; eauto. discriminate.
+      + discriminate.
+    - destruct (u_asm s) as [| |r|c] eqn:Qa; [| | |discriminate].
+      + destruct (u_taken s <? u_handed s).
+        * inversion E; subst; clear E. dleaf.
+        * destruct (is_done (u_feed s)) eqn:Qd; [|discriminate]. inversion E; subst; clear E. dleaf; try (intros Hd; congruence).
+      + destruct (existsb (Nat.eqb (u_taken s - 1)) (u_fetched s)); [|discriminate].
+        destruct (fetch_ok (u_taken s - 1) && (0 <? csize (u_taken s - 1))); inversion E; subst; clear E; dleaf.
+      + destruct (u_rclosed s); [|discriminate]. inversion E; subst; clear E. dleaf.
+    - destruct (u_asm s) eqn:Qa; try discriminate.
+      destruct (u_cancelled s); [|discriminate]. inversion E; subst; clear E. dleaf.
+    - destruct (u_dec s) eqn:Qd; [| |discriminate].
+      + destruct (u_cancelled s) eqn:Qc; inversion E; subst; clear E; dleaf; try (rewrite Qc; exact De).
+      + destruct (negb (dec_ok (u_pos s))).
+        * inversion E; subst; clear E. dleaf.
+        * destruct (u_asm s) as [| |[|[|r]]|c] eqn:Qa;
+            try (destruct (u_wclosed s) eqn:Qw; [|discriminate]; destruct (boundary (u_pos s)));
+            inversion E; subst; clear E; dleaf. 
+    - destruct (u_dec s) eqn:Qd; try discriminate. inversion E; subst; clear E. dleaf.
+    - destruct (can_cancel && negb (u_ext s)); [|discriminate]. inversion E; subst; clear E. dleaf.
+  Qed.
+
+  Lemma run_dinv nw sched : DInv (run step sched (uinit nw)).
+  Proof. apply inv_run with (Inv := DInv); [intros; eapply step_dinv; eauto|apply init_dinv]. Qed.
+
+  Lemma run_uworkers_length nw sched : length (u_workers (run step sched (uinit nw))) = nw.
+  Proof.
+    apply (inv_run step (fun s => length (u_workers s) = nw)).
+    - intros s t s' Hs E. rewrite <- Hs.
+      destruct t as [| |i| | | | |]; unfold ustep in E; ubreak E; inversion E; subst; clear E; usimp;
+        try reflexivity; apply set_nth_length.
+    - cbn. apply repeat_length.
+  Qed.
+
+  Lemma workers_cases (l : list uwork) :
+    (exists i k, nth_error l i = Some (UWBusy k)) \/ (exists i, nth_error l i = Some UWErr) \/
+    (exists i, nth_error l i = Some UWIdle) \/
+    forallb (fun w => match w with UWExited => true | _ => false end) l = true.
+  Proof.
+    induction l as [|w r IH]; [right; right; right; reflexivity|].
+    destruct w as [|k| |].
+    - right; right; left. exists 0. reflexivity.
+    - left. exists 0, k. reflexivity.
+    - right; left. exists 0. reflexivity.
+    - destruct IH as [[i [k Hi]]|[[i Hi]|[[i Hi]|Hall]]].
+      + left. exists (S i), k. exact Hi.
+      + right; left. exists (S i). exact Hi.
+      + right; right; left. exists (S i). exact Hi.
+      + right; right; right. cbn. exact Hall.
+  Qed.
+
+  (* UnTarIndex cannot get stuck: whenever some goroutine has not returned, one of them can take a
+     step -- in particular after a cancellation or an error every goroutine eventually leaves. *)
+  Theorem untarindex_deadlock_free nw sched :
+    let s := run step sched (uinit nw) in
+    0 < nw -> 0 < cap -> ufinal s = false -> exists t, step s t <> None.
+  Proof.
+    intros s Hnw Hcap Hfin.
+    assert (I := run_uinv nw sched). fold s in I. assert (D := run_dinv nw sched). fold s in D.
+    assert (Hlen : length (u_workers s) = nw) by apply run_uworkers_length.
+    destruct (q_ord _ I) as [O1 [O2 O3]].
+    (* a busy or failed worker can always move *)
+    assert (BUSY : forall j k, nth_error (u_workers s) j = Some (UWBusy k) -> exists t, step s t <> None).
+    { intros j k Hj. exists (UTWorker j). unfold ustep. rewrite Hj. destruct (fetch_ok k); discriminate. }
+    (* the assembler waiting for a data channel *)
+    assert (WAIT : u_asm s = UAWait -> exists t, step s t <> None).
+    { intros Ea. pose proof (q_await _ I Ea) as Ht.
+      destruct (d_req _ D (u_taken s - 1) ltac:(lia)) as [Hin|[j Hj]]; [|eapply BUSY; eauto].
+      exists UTAsm. unfold ustep. rewrite Ea.
+      assert (Ex : existsb (Nat.eqb (u_taken s - 1)) (u_fetched s) = true).
+      { apply existsb_exists. exists (u_taken s - 1). split; [exact Hin|apply Nat.eqb_refl]. }
+      rewrite Ex. destruct (fetch_ok (u_taken s - 1) && (0 <? csize (u_taken s - 1))); discriminate. }
+    (* the assembler inside a pipe write *)
+    assert (WRITE : forall r, u_asm s = UAWrite r -> exists t, step s t <> None).
+    { intros r Ea. destruct (q_awrite _ I r Ea) as [_ [Hr _]].
+      destruct (u_dec s) as [| |[|]] eqn:Ed.
+      - exists UTDec. unfold ustep. rewrite Ed. destruct (u_cancelled s); discriminate.
+      - exists UTDec. unfold ustep. rewrite Ed, Ea. destruct (negb (dec_ok (u_pos s))); [discriminate|].
+        destruct r as [|[|r]]; [lia|discriminate|discriminate].
+      - pose proof (d_dclean _ D Ed) as Hw. rewrite (d_wclosed _ D), Ea in Hw. discriminate.
+      - exists UTAsm. unfold ustep. rewrite Ea.
+        assert (Hr' : u_rclosed s = true) by (apply (d_rclosed _ D); exact Ed). rewrite Hr'. discriminate. }
+    (* the feeder holding a data channel for the assembler *)
+    assert (HAND : u_feed s = UFHand -> exists t, step s t <> None).
+    { intros Ef. destruct (u_handed s - u_taken s <? cap) eqn:Eq.
+      - exists UTFeed. unfold ustep. rewrite Ef, Eq. discriminate.
+      - apply Nat.ltb_ge in Eq. assert (Hlt : u_taken s < u_handed s) by lia.
+        destruct (u_asm s) as [| |r|[|]] eqn:Ea.
+        + exists UTAsm. unfold ustep. rewrite Ea. apply Nat.ltb_lt in Hlt. rewrite Hlt. discriminate.
+        + apply WAIT. reflexivity.
+        + eapply WRITE. reflexivity.
+        + destruct (q_adone _ I Ea) as [_ [Hth _]]. lia.
+        + exists UTFeedCancel. unfold ustep. rewrite Ef.
+          assert (Hc : u_cancelled s = true) by (apply (d_errc _ D), (q_aerr _ I); exact Ea).
+          rewrite Hc. cbn. destruct (u_err s); discriminate. }
+    destruct (workers_cases (u_workers s)) as [[i [k Hb]]|[[i He]|[[i Hi]|Hall]]].
+    - eapply BUSY; eauto.
+    - exists (UTWorker i). unfold ustep. rewrite He. discriminate.
+    - destruct (u_feed s) as [| |b] eqn:Ef.
+      + destruct (u_req s <? n) eqn:Eq.
+        * exists (UTWorker i). unfold ustep. rewrite Hi, Ef, Eq. discriminate.
+        * apply Nat.ltb_ge in Eq. exists UTFeed. unfold ustep. rewrite Ef.
+          assert (En : u_req s =? n = true) by (apply Nat.eqb_eq; lia). rewrite En. discriminate.
+      + apply HAND. reflexivity.
+      + exists (UTWorker i). unfold ustep. rewrite Hi, Ef. discriminate.
+    - (* every worker has returned *)
+      assert (Hw0 : nth_error (u_workers s) 0 = Some UWExited).
+      { destruct (u_workers s) as [|w r] eqn:El; [cbn in Hlen; lia|].
+        cbn in Hall. destruct w; try discriminate. reflexivity. }
+      destruct (u_feed s) as [| |b] eqn:Ef.
+      + destruct (u_req s =? n) eqn:Eq.
+        * exists UTFeed. unfold ustep. rewrite Ef, Eq. discriminate.
+        * apply Nat.eqb_neq in Eq. exists UTFeedCancel. unfold ustep. rewrite Ef.
+          assert (Hc : u_cancelled s = true).
+          { apply (d_errc _ D). eapply (d_exit _ D); [rewrite Ef; reflexivity|exact Hw0]. }
+          assert (El : u_req s <? n = true) by (apply Nat.ltb_lt; lia).
+          rewrite Hc, El. cbn. discriminate.
+      + apply HAND. reflexivity.
+      + destruct (u_asm s) as [| |r|c] eqn:Ea.
+        * exists UTAsm. unfold ustep. rewrite Ea, Ef. destruct (u_taken s <? u_handed s); discriminate.
+        * apply WAIT. reflexivity.
+        * eapply WRITE. reflexivity.
+        * destruct (u_dec s) as [| |c'] eqn:Ed.
+          -- exists UTDec. unfold ustep. rewrite Ed. destruct (u_cancelled s); discriminate.
+          -- exists UTDec. unfold ustep. rewrite Ed, Ea. destruct (negb (dec_ok (u_pos s))); [discriminate|].
+             assert (Hwc : u_wclosed s = true) by (rewrite (d_wclosed _ D), Ea; reflexivity).
+             rewrite Hwc. destruct (boundary (u_pos s)); discriminate.
+          -- exfalso. unfold ufinal in Hfin. rewrite Ef, Hall, Ea, Ed in Hfin. discriminate.
+  Qed.
 End UnTarProofs.
 
 (* The code before the fix: the decoder has passed its ctx check and waits for bytes; the context is
